@@ -2,10 +2,12 @@ from checks.generic import standard
 
 def run(ctx):
     return standard(ctx,
-        props=[("Props.C13", ["c13_decision", "c13_no_lookalike", "c13_own_hosts_match", "c13_no_config", "c13_cors", "c13_old_rule_refuted"])],
+        props=[("Props.C13", ["c13_decision", "c13_no_lookalike", "c13_own_hosts_match", "c13_no_config", "c13_cors", "c13_old_rule_refuted",
+                              "c13_split_complete", "c13_split_sound", "c13_plain_grammar"])],
         harness=("TestVerif_C13", ["kmd/common.go", "kmd/creds.go", "kmd/c13.go"]),
-        cases=("CasesC13.v", [("c13_mismatches", "CanRedirectToURL / CorsOriginAllowed / generic CORS = model on the components url.Parse delivers, 8 client configurations")], "CasesC13.idx"),
-        trusted=["net/url.Parse and regexp run in front of the model (scheme, RawQuery, Path, Hostname and the pattern verdict are its inputs)",
+        cases=("CasesC13.v", [("c13_mismatches", "CanRedirectToURL / CorsOriginAllowed / generic CORS = model on the components url.Parse delivers, 8 client configurations"),
+                              ("c13_split_mismatches", "net/url.Parse = Gallina splitter on members and near-misses of the conservative https grammar", "CasesC13split.idx")], "CasesC13.idx"),
+        trusted=["net/url.Parse and regexp run in front of the decision model (scheme, RawQuery, Path, Hostname and the pattern verdict are its inputs); on the conservative grammar of Model/UrlSplit.v net/url.Parse itself is compared with the Gallina splitter",
                  "harness WHATWG host extractor (special-scheme rules: backslash = slash, tab/CR/LF stripped, last @, percent-decoding, lower-casing) stands in for browsers"],
         assumptions=["agreement between net/url and browsers about the host of the raw string is tested against the harness's WHATWG oracle on the adversarial grammar, not proved"],
-        unproved=["net/url vs browser agreement outside the decision layer: differential only"])
+        unproved=["net/url vs browser agreement outside the conservative grammar (user-info, escapes, backslashes, case folding, control bytes): differential against the harness's WHATWG rules only"])
